@@ -313,7 +313,7 @@ func lockID(v Val) string {
 		switch v.LV.Kind {
 		case lvField:
 			if v.LV.Base == nil {
-				return fmt.Sprintf("%s.%s", v.LV.Ref, fieldName(v.LV.ST.Field(v.LV.Field), v.LV.Field))
+				return fmt.Sprintf("%s.%s", canonID(v.LV.Ref), fieldName(v.LV.ST.Field(v.LV.Field), v.LV.Field))
 			}
 		case lvGlobal:
 			return "global." + v.LV.Global.Name()
@@ -321,15 +321,7 @@ func lockID(v Val) string {
 		return "lv?"
 	}
 	if v.T != nil {
-		t := v.T
-		for i := 0; i < 4 && t.Kind == kVar; i++ {
-			d, ok := defOf[t.Op]
-			if !ok {
-				break
-			}
-			t = d
-		}
-		return t.String()
+		return canonID(v.T)
 	}
 	return "?"
 }
